@@ -65,7 +65,9 @@ let () =
         incr n;
         let m = kv rest in
         let get key = try List.assoc key m with Not_found -> failwith ("missing " ^ key) in
-        if get "blocked" = "1" then begin
+        if (try get "meta" with _ -> "1") = "0" then begin
+          incr viol; Printf.printf "VIOL %d %s :: SetMetadata through the synchronized events collector did not reach the collector behind it\n" (ln+1) (short line) end
+        else if get "blocked" = "1" then begin
           incr viol; Printf.printf "VIOL %d %s :: the synchronized recorder blocked for more than 20 s\n" (ln+1) (short line) end
         else begin
           let o = { so_blocked = false; so_live = nat_of_int 0; so_late = nat_of_int 0;
